@@ -473,9 +473,25 @@ func hang[C any](id, test string, c C) {
 	dump := string(buf[:runtime.Stack(buf, true)])
 	libMutex := false
 	for _, g := range strings.Split(dump, "\n\n") {
-		if strings.Contains(g, "github.com/platinummonkey/go-concurrency-limits/") &&
+		if strings.Contains(g, libPath) &&
 			(strings.Contains(g, "sync.(*Mutex).Lock") || strings.Contains(g, "sync.(*RWMutex).Lock") || strings.Contains(g, "sync.(*RWMutex).RLock")) {
 			libMutex = true
+		}
+	}
+	// A library goroutine that is still busy (running / runnable, innermost non-runtime frame inside the library)
+	// in two dumps taken two seconds apart, while the case's own goroutine sits in synctest.Wait waiting for
+	// quiescence: on a virtual clock a correct case takes milliseconds, so this is a call spinning instead of
+	// blocking or returning (livelock).
+	libSpin := false
+	if spin1 := busyLibGoroutines(dump); len(spin1) > 0 && strings.Contains(dump, "synctest.Wait") {
+		time.Sleep(2 * time.Second)
+		dump2 := string(buf[:runtime.Stack(buf, true)])
+		if strings.Contains(dump2, "synctest.Wait") {
+			for g := range busyLibGoroutines(dump2) {
+				if spin1[g] {
+					libSpin = true
+				}
+			}
 		}
 	}
 	raw := canon(c)
@@ -484,9 +500,37 @@ func hang[C any](id, test string, c C) {
 		out.Violation = out.Violation[:20000]
 	}
 	path := saveFound(id, test, raw, out)
-	fmt.Printf("VERIF-HANG property=%s libmutex=%v replay=%s\n", id, libMutex, path)
+	fmt.Printf("VERIF-HANG property=%s libmutex=%v libspin=%v replay=%s\n", id, libMutex, libSpin, path)
 	Flush()
 	os.Exit(3)
+}
+
+const libPath = "github.com/platinummonkey/go-concurrency-limits/"
+
+// busyLibGoroutines returns the ids of goroutines that are running or runnable with their innermost
+// non-runtime frame inside the library.
+func busyLibGoroutines(dump string) map[string]bool {
+	out := map[string]bool{}
+	for _, g := range strings.Split(dump, "\n\n") {
+		lines := strings.Split(g, "\n")
+		if len(lines) < 2 || !strings.HasPrefix(lines[0], "goroutine ") {
+			continue
+		}
+		hdr := lines[0]
+		if !strings.Contains(hdr, "[running") && !strings.Contains(hdr, "[runnable") {
+			continue
+		}
+		for _, l := range lines[1:] {
+			if strings.HasPrefix(l, "\t") || strings.HasPrefix(l, "runtime.") || strings.HasPrefix(l, "sync.") || strings.HasPrefix(l, "sync/atomic.") || strings.HasPrefix(l, "internal/") || strings.HasPrefix(l, "time.") || strings.HasPrefix(l, "container/") || strings.HasPrefix(l, "context.") {
+				continue
+			}
+			if strings.HasPrefix(l, libPath) {
+				out[strings.Fields(hdr)[1]] = true
+			}
+			break
+		}
+	}
+	return out
 }
 
 // SaveFound writes a violating case found outside Check (fuzz targets) as a replay file.
